@@ -49,7 +49,7 @@ Internal ==
   /\ \/ Dispatch
      \/ \E p \in Pipe : XmitStart(p) \/ AutoXmit(p) \/ Requeue(p)
      \/ \E x \in asyncRs : ResendRun(x[1], x[2])
-     \/ \E t \in Thread : \E r \in {"ok", "ErrClosed", "ErrNoPeers", "ErrSendTimeout"} : SendWake(t, r)
+     \/ \E t \in Thread : \E r \in {"ok", "ErrClosed", "ErrNoPeers", "ErrSendTimeout", "ErrCanceled"} : SendWake(t, r)
      \/ \E t \in Thread : \E r \in {"ok", "ErrClosed", "ErrNoPeers", "ErrRecvTimeout", "ErrCanceled"} :
           \E m \in ReplySet \cup {NoReply} : RecvWake(t, r, m)
 
